@@ -252,13 +252,31 @@ def run_case(ctx, case):
     judge(ctx, site, cfg, w, out, check_bounds=None, floor=floor)
   else:
     mstep = bool(case["kseed"] % 2)
-    layer = ll.Lattice(units=cfg["units"], monotonic_at_every_step=mstep,
-                       num_projection_iterations=cfg["iters"], **dict(kw, **({} if dt == "float32" else {"dtype": dt})))
     shape = (None, len(cfg["sizes"])) if cfg["units"] == 1 else (None, cfg["units"], len(cfg["sizes"]))
-    layer.build(shape)
-    layer.kernel.assign(w)
-    layer.finalize_constraints()
-    out = layer.kernel.numpy()
+    lkw = dict(kw, **({} if dt == "float32" else {"dtype": dt}))
+    if case["kseed"] % 5 == 0:
+      # TF1 graph mode, as the method documents ("in graph mode returns a group op ... which has to be executed"):
+      # own Graph, weights fed through a placeholder, the returned op run in a Session, kernel fetched through it
+      v1 = tf.compat.v1
+      ctx.cls("exec:v1-session")
+      graph = tf.Graph()
+      with graph.as_default():
+        layer = ll.Lattice(units=cfg["units"], monotonic_at_every_step=mstep, num_projection_iterations=cfg["iters"], **lkw)
+        layer.build(shape)
+        ph = v1.placeholder(layer.kernel.dtype, layer.kernel.shape)
+        assign = layer.kernel.assign(ph)
+        fin = layer.finalize_constraints()
+        with v1.Session(graph=graph) as sess:
+          sess.run(v1.global_variables_initializer())
+          sess.run(assign, {ph: w})
+          sess.run(fin)
+          out = sess.run(layer.kernel)
+    else:
+      layer = ll.Lattice(units=cfg["units"], monotonic_at_every_step=mstep, num_projection_iterations=cfg["iters"], **lkw)
+      layer.build(shape)
+      layer.kernel.assign(w)
+      layer.finalize_constraints()
+      out = layer.kernel.numpy()
     site = "Lattice.finalize_constraints"
     ctx.cls("monotonic_at_every_step:%s" % mstep)
     judge(ctx, site, cfg, w, out, check_bounds="tol", floor=floor)
